@@ -59,7 +59,7 @@ func NewPool(w *Worker) *Pool {
 			par = n
 		}
 	}
-	return &Pool{W: w, Par: par, Batch: 100, CaseTimeout: 120 * time.Second, MemLimit: "1GiB"}
+	return &Pool{W: w, Par: par, Batch: 20, CaseTimeout: 120 * time.Second, MemLimit: "1GiB"}
 }
 
 // Run executes all cases and returns one outcome per case, in the order given.
